@@ -84,6 +84,17 @@ CHECKS.update({
             "DESIGN.md §3 C05"),
 })
 
+CHECKS.update({
+    "C02": ("fault_enumeration",
+            "fault injection at the design level: every single-fault mutation of valid designs at every site, judged by "
+            "return-vs-raise of elaborate / to_proto / netlist on fresh copies and on retries over the same objects",
+            "19 fault classes x every connection site (expression kind x instance kind x depth) of structural and random base "
+            "designs; the reference validity judge R1 confirms each mutant is ill-formed; any returned package/netlist is a "
+            "violation, including on a retry or on exporting a module that holds the fault after a first failure.",
+            "single faults; exception type unconstrained; for name clashes only the exporting calls are demanded to raise",
+            "DESIGN.md §3 C02"),
+})
+
 NOT_APPLICABLE = {}
 
 
